@@ -7,12 +7,14 @@ structure Facts where
   fnNames : List Str := []
   selInts : List Int := []
   litInts : List Int := []
+  litFloats : List (Int × Nat) := []
 
-def Facts.app (a b : Facts) : Facts := ⟨a.fnNames ++ b.fnNames, a.selInts ++ b.selInts, a.litInts ++ b.litInts⟩
+def Facts.app (a b : Facts) : Facts := ⟨a.fnNames ++ b.fnNames, a.selInts ++ b.selInts, a.litInts ++ b.litInts, a.litFloats ++ b.litFloats⟩
 instance : Append Facts := ⟨Facts.app⟩
 
 def litFacts : Literal → Facts
   | .int i => { litInts := [i] }
+  | .float n d => { litFloats := [(n, d)] }
   | _ => {}
 def oiL : Option Int → List Int | some i => [i] | none => []
 
